@@ -59,6 +59,7 @@ SYMBOL_ATTRIBUTES = {
     "FILLED",
     "FONT",
     "IMAGE",
+    "INCLUDE",
     "NAME",
     "COLOR",
     "TYPE",
